@@ -348,19 +348,49 @@ def _warn_about_bad_printer(pretty_fn, value, exc):
     )
 
 
+class _InvalidPrinterResult(ValueError):
+    """Raised when a pretty printer returns neither a str nor a Doc.
+    It is a programming error in the printer definition and is reported
+    to the caller; enclosing printers must not swallow it."""
+
+
 def _run_pretty(pretty_fn, value, ctx, trailing_comment=None):
     if ctx.is_visited(value):
         return _pretty_recursion(value)
 
     ctx.start_visit(value)
+    try:
+        doc = _call_pretty_fn(pretty_fn, value, ctx, trailing_comment)
+    finally:
+        ctx.end_visit(value)
 
+    if not (
+        isinstance(doc, str) or
+        isinstance(doc, Doc)
+    ):
+        fnname = '{}.{}'.format(
+            pretty_fn.__module__,
+            pretty_fn.__qualname__
+        )
+        raise _InvalidPrinterResult(
+            'Functions decorated with register_pretty must return '
+            'an instance of str or Doc. {} returned '
+            '{} instead.'.format(fnname, repr(doc))
+        )
+
+    return doc
+
+
+def _call_pretty_fn(pretty_fn, value, ctx, trailing_comment):
     if trailing_comment:
         try:
-            doc = pretty_fn(
+            return pretty_fn(
                 value,
                 ctx,
                 trailing_comment=trailing_comment
             )
+        except _InvalidPrinterResult:
+            raise
         except TypeError as e:
             # This is probably because pretty_fn does not support
             # trailing_comment, but let's make sure.
@@ -378,34 +408,20 @@ def _run_pretty(pretty_fn, value, ctx, trailing_comment=None):
                         type(value).__name__, fnname
                     )
                 )
-                doc = pretty_fn(value, ctx)
             else:
                 _warn_about_bad_printer(pretty_fn, value, exc=e)
-                doc = repr(value)
-    else:
-        try:
-            doc = pretty_fn(value, ctx)
+                return repr(value)
         except Exception as e:
             _warn_about_bad_printer(pretty_fn, value, exc=e)
-            doc = repr(value)
+            return repr(value)
 
-    if not (
-        isinstance(doc, str) or
-        isinstance(doc, Doc)
-    ):
-        fnname = '{}.{}'.format(
-            pretty_fn.__module__,
-            pretty_fn.__qualname__
-        )
-        raise ValueError(
-            'Functions decorated with register_pretty must return '
-            'an instance of str or Doc. {} returned '
-            '{} instead.'.format(fnname, repr(doc))
-        )
-
-    ctx.end_visit(value)
-
-    return doc
+    try:
+        return pretty_fn(value, ctx)
+    except _InvalidPrinterResult:
+        raise
+    except Exception as e:
+        _warn_about_bad_printer(pretty_fn, value, exc=e)
+        return repr(value)
 
 
 _DEFERRED_DISPATCH_BY_NAME = {}
